@@ -83,18 +83,22 @@ Qed.
 
 Lemma handle_ed : forall me st l m st' out r, handle me st l m = (st', out, r) ->
   forall tg d, ed st' tg d = ed st tg d \/
-  (tg = mtag m /\ d = m_pay m /\ m_act m = 2 /\ filt st FEcho l tg = false /\ ed st' tg d = ed st tg d + 1).
+  (tg = mtag m /\ d = m_pay m /\ m_act m = 2 /\ filt st FEcho l tg = false /\ ed st' tg d = ed st tg d + 1 /\
+   filt st' FEcho l tg = true).
 Proof.
   intros me st l m st' out r. open_handle; intros tg d; auto;
-  rewrite upd2_eq; destruct (tag_eqb tg (mtag m) && (d =? m_pay m)) eqn:C; auto; b2p; subst; right; repeat split; auto.
+  rewrite upd2_eq; destruct (tag_eqb tg (mtag m) && (d =? m_pay m)) eqn:C; auto; b2p; subst; right; repeat split; auto;
+  apply fset_same.
 Qed.
 
 Lemma handle_rd : forall me st l m st' out r, handle me st l m = (st', out, r) ->
   forall tg d, rd st' tg d = rd st tg d \/
-  (tg = mtag m /\ d = m_pay m /\ m_act m = 3 /\ filt st FReady l tg = false /\ rd st' tg d = rd st tg d + 1).
+  (tg = mtag m /\ d = m_pay m /\ m_act m = 3 /\ filt st FReady l tg = false /\ rd st' tg d = rd st tg d + 1 /\
+   filt st' FReady l tg = true).
 Proof.
   intros me st l m st' out r. open_handle; intros tg d; auto;
-  rewrite upd2_eq; destruct (tag_eqb tg (mtag m) && (d =? m_pay m)) eqn:C; auto; b2p; subst; right; repeat split; auto.
+  rewrite upd2_eq; destruct (tag_eqb tg (mtag m) && (d =? m_pay m)) eqn:C; auto; b2p; subst; right; repeat split; auto;
+  apply fset_same.
 Qed.
 
 Lemma handle_dbar : forall me st l m st' out r, handle me st l m = (st', out, r) ->
@@ -167,10 +171,10 @@ Definition pstep (st st' : pst) (out : list (Z * msg)) (r : dres) (offer : optio
   (forall k l tg, filt st k l tg = true -> filt st' k l tg = true) /\
   (forall tg d, ed st' tg d = ed st tg d \/
      exists l m, offer = Some (l, m) /\ tg = mtag m /\ d = m_pay m /\ m_act m = 2 /\ filt st FEcho l tg = false /\
-                 ed st' tg d = ed st tg d + 1) /\
+                 ed st' tg d = ed st tg d + 1 /\ filt st' FEcho l tg = true) /\
   (forall tg d, rd st' tg d = rd st tg d \/
      exists l m, offer = Some (l, m) /\ tg = mtag m /\ d = m_pay m /\ m_act m = 3 /\ filt st FReady l tg = false /\
-                 rd st' tg d = rd st tg d + 1) /\
+                 rd st' tg d = rd st tg d + 1 /\ filt st' FReady l tg = true) /\
   (forall tg, dbar st' tg = dbar st tg \/ (dbar st tg = None /\ exists d, dbar st' tg = Some d /\ rd st' tg d = 2 * t + 1)) /\
   (forall tg, mbar st' tg = mbar st tg \/ mbar st tg = None \/
               (exists v, mbar st' tg = Some v /\ dbar st' tg = Some (H v)) \/ retrieved st' tg) /\
@@ -211,8 +215,8 @@ Proof.
       { intros k l0 tg E. destruct (filt st k l0 tg) eqn:Y; auto. apply Fm in Y. congruence. }
       unfold pstep. rewrite Ed, Rd, Db, Mb in *. split8.
       * intros k l0 tg E. apply X1. apply Fm. exact E.
-      * intros tg d. destruct (X2 tg d) as [E|(-> & -> & A & B & C)]; auto. right. exists l, m. repeat split; auto.
-      * intros tg d. destruct (X3 tg d) as [E|(-> & -> & A & B & C)]; auto. right. exists l, m. repeat split; auto.
+      * intros tg d. destruct (X2 tg d) as [E|(-> & -> & A & B & C & D)]; auto. right. exists l, m. repeat split; auto.
+      * intros tg d. destruct (X3 tg d) as [E|(-> & -> & A & B & C & D)]; auto. right. exists l, m. repeat split; auto.
       * intros tg. destruct (X4 tg) as [E|(-> & A & B & C)]; auto. right. split; auto. eauto.
       * intros tg. destruct (X5 tg) as [E|(-> & [[_ A]|[A|A]])]; auto.
         right; right; right. exists l. apply X1. exact A.
